@@ -26,8 +26,8 @@ class P(vlib.Prop):
             "compression carrying a crafted body: valid stream of payload size L-1, L, L+1, 2L, 10L, truncated, one byte "
             "flipped, trailing garbage or second member, noise, empty; header naming the right codec, another codec, "
             "deflate, upper case, lists, unknown names; limit L, or the raw size +-1); custom (WithDecoder: pass-through, "
-            "(nil,nil), error, byte-doubling; also overriding gzip, zstd, deflate and ''); nildecoder (enabled name without "
-            "decoder); pairgrid (exhaustive: every single enabled name x every content-encoding name of the default list, "
+            "(nil,nil), error, byte-doubling, and a nil func; also overriding gzip, zstd, deflate and ''); nildecoder (enabled "
+            "name without decoder: regression inputs of the repaired panic, must get 400); pairgrid (exhaustive: every single enabled name x every content-encoding name of the default list, "
             "valid body for the header's codec). Request framing is a dimension of EVERY class: 35-65% of the non-empty "
             "bodies are handed over as opaque readers (no length declared: sent chunked, ContentLength -1 at the server; "
             "identity bodies without declared length get limits at or below their size), method POST/PUT/PATCH/DELETE "
